@@ -202,6 +202,9 @@ impl Request {
 }
 pub open spec fn ents(rem: Seq<(&String, &String)>) -> Seq<(String, String)> { Seq::new(rem.len(), |i: int| (*rem[i].0, *rem[i].1)) }
 
+// ---- PINS: functions of /repo this unit (or the property it serves) only ASSUMES something about — a hand-written shim stands for them, or nothing at
+// all does. The assumption was made for one text of each; the token hash ties it to that text: a change makes the unit UNDECIDED (exit 2), never OK.
+//@@ pin src/api/rule.rs :: impl Rule / fn path_and_query = 9c0c543b0a83
 //@@ strlits
 } // verus!
 fn main() {}
